@@ -25,7 +25,7 @@ func init() {
 	register(&Property{
 		ID:          "C17",
 		Run:         runC17,
-		Explanation: "v1 AddInput/RemoveInput (structure): R1 both command channels are made unbuffered, so the API call returns only after the scheduler received the command; R2 the receiving clause applies the command (a call that updates the input table with the command's own fields) before the clause is left; R3 removal deletes the table entry and every input receive loads the table and looks the channel up in the same basic block as its select (nothing cached across iterations), so a removed channel is never read again; R4 (= B11) in-flight counters of a removed priority stay until they are zero; R5 (= X1/D2/P2) addition replaces the channel and resets Drained, appends the key only if new, re-sorts the list and re-divides the shares before returning to the round.",
+		Explanation: "v1 AddInput/RemoveInput (structure): R1 both command channels are made unbuffered, so the API call returns only after the scheduler received the command; R2 the receiving clause applies the command (a call that updates the input table with the command's own fields) before the clause is left; R3 removal deletes the table entry and every input receive reads a channel that was looked up in the table with no write of the table possible between that lookup and the receive (a lookup may be hoisted out of a loop that does not touch the table, it may not survive the point where a command is applied), so a removed channel is never read again; R4 (= B11) in-flight counters of a removed priority stay until they are zero; R5 (= X1/D2/P2) addition replaces the channel and resets Drained, appends the key only if new, re-sorts the list and re-divides the shares before returning to the round.",
 		NotDecided:  []string{"nothing structural; capacity / exactly-once / termination across changes follow from the C01/C02/C07 rules, which do not depend on the priority set"},
 	})
 }
@@ -453,65 +453,55 @@ func checkN2(c *Ctx, pr *prioRoles) {
 			}
 			n++
 			key := fmt.Sprintf("%s#release-wait.%d", p.FnKey(fn), n)
-			// (b) inside the loop guarded by not-all-zero
-			okB := false
-			for _, e := range InstrDomEdges(rs.In) {
-				if p.edgeIsCallResult(e, func(f *ssa.Function) bool { return f == pr.sr.allZero }, false) {
-					okB = true
-				}
-			}
-			if okB {
-				c.R.Pass("N2", key, rs.Pos(p), "inside the wait loop guarded by 'something is in flight'")
-				continue
-			}
-			// (a) the receive itself, or every call site of its function, is on the proceed==false edge
-			// of the round-start calculation
-			var guarded []ssa.Instruction
-			selfGuarded := false
-			for _, e := range InstrDomEdges(rs.In) {
-				if p.edgeIsCallResult(e, reachesVac, false) {
-					selfGuarded = true
-				}
-				iff := e.From.Instrs[len(e.From.Instrs)-1].(*ssa.If)
-				base, neg := condOf(iff.Cond)
-				if ex, isEx := base.(*ssa.Extract); isEx && ex.Index == 0 {
-					if call, isCall := ex.Tuple.(*ssa.Call); isCall && p.Callee(call) != nil && reachesVac(p.Callee(call)) && (e.Succ == 0) == neg {
-						selfGuarded = true
+			// the receive - or every call site of its function, transitively - is either
+			// (b) inside the loop guarded by not-all-zero, or
+			// (a) on the proceed==false edge of the round-start calculation
+			guardOf := func(in ssa.Instruction) string {
+				for _, e := range InstrDomEdges(in) {
+					if p.edgeIsCallResult(e, func(f *ssa.Function) bool { return f == pr.sr.allZero }, false) {
+						return "inside the wait loop guarded by 'something is in flight'"
 					}
 				}
-			}
-			if selfGuarded {
-				c.R.Pass("N2", key, rs.Pos(p), "only when the round-start calculation could not proceed")
-				continue
-			}
-			for _, cs := range p.CallSites(fn) {
-				guarded = append(guarded, cs)
-			}
-			sites := guarded
-			okA := len(sites) > 0
-			var bad []string
-			for _, cs := range sites {
-				okSite := false
-				for _, e := range InstrDomEdges(cs) {
+				for _, e := range InstrDomEdges(in) {
 					if p.edgeIsCallResult(e, reachesVac, false) {
-						okSite = true
+						return "only when the round-start calculation could not proceed"
 					}
 					// result extracted from a tuple
 					iff := e.From.Instrs[len(e.From.Instrs)-1].(*ssa.If)
 					base, neg := condOf(iff.Cond)
 					if ex, isEx := base.(*ssa.Extract); isEx && ex.Index == 0 {
-						if call, isCall := ex.Tuple.(*ssa.Call); isCall && p.Callee(call) != nil && reachesVac(p.Callee(call)) {
-							if (e.Succ == 0) == neg {
-								okSite = true
-							}
+						if call, isCall := ex.Tuple.(*ssa.Call); isCall && p.Callee(call) != nil && reachesVac(p.Callee(call)) && (e.Succ == 0) == neg {
+							return "only when the round-start calculation could not proceed"
 						}
 					}
 				}
-				if !okSite {
-					okA = false
+				return ""
+			}
+			if g := guardOf(rs.In); g != "" {
+				c.R.Pass("N2", key, rs.Pos(p), g)
+				continue
+			}
+			var bad []string
+			var sitesOK func(f *ssa.Function, depth int) bool
+			sitesOK = func(f *ssa.Function, depth int) bool {
+				sites := p.CallSites(f)
+				if len(sites) == 0 || depth > 3 {
+					return false
+				}
+				ok := true
+				for _, cs := range sites {
+					if guardOf(cs) != "" {
+						continue
+					}
+					if _, isGo := cs.(*ssa.Go); !isGo && cs.Parent() != f && sitesOK(cs.Parent(), depth+1) {
+						continue
+					}
+					ok = false
 					bad = append(bad, p.InstrPos(cs))
 				}
+				return ok
 			}
+			okA := sitesOK(fn, 0)
 			c.R.Check(okA, "N2", key, rs.Pos(p), "only when the round-start calculation could not proceed", "the scheduler can block waiting for a release at "+strings.Join(bad, ", ")+" although an allotment may be possible: with nothing in flight no release ever comes and delivery stops")
 		}
 	}
@@ -706,7 +696,7 @@ func runC17(c *Ctx) {
 	r.Doc("R0", "role resolution", 1)
 	r.Doc("R1", "command channels are unbuffered; the API hands the command over with one plain blocking send", 4)
 	r.Doc("R2", "a received command is applied inside its clause before the clause is left", 2)
-	r.Doc("R3", "removal deletes the table entry; input receives look the channel up afresh (same block as the select)", 3)
+	r.Doc("R3", "removal deletes the table entry; input receives read a channel looked up in the table with no table write between the lookup and the receive", 3)
 	r.Doc("R4", "(= B9, B11, E3, E4) counters of a removed priority change only by releases, are kept until zero, and graceful termination waits for them", 8)
 	r.Doc("R5", "(= X1, D2, P2) replace channel / reset Drained / append if new / re-sort / re-divide", 6)
 	pr, err := resolvePrio(p)
@@ -837,7 +827,40 @@ func runC17(c *Ctx) {
 		}
 	}
 	r.Check(okDel, "R3", pr.key+"#delete", "-", "RemoveInput(p) => delete(inputs, p)", "the removal command does not delete the input-table entry of the removed priority: its channel keeps being read")
-	// R3b: fresh lookup
+	// R3b: fresh lookup: the channel that is read was looked up in the input table, and the table
+	// cannot have been written between that lookup and the receive (the lookup may be hoisted out
+	// of a loop that does not touch the table; it may not survive a point where a command is applied)
+	isTableWriter := func(in ssa.Instruction) bool {
+		switch x := in.(type) {
+		case *ssa.MapUpdate:
+			return isInputTableType(x.Map.Type())
+		case *ssa.Store:
+			_, isW := fieldStore(in, "inputs")
+			return isW
+		case ssa.CallInstruction:
+			if bi, isB := x.Common().Value.(*ssa.Builtin); isB {
+				return bi.Name() == "delete" && isInputTableType(x.Common().Args[0].Type())
+			}
+			cal := p.Callee(x)
+			if cal == nil {
+				return !x.Common().IsInvoke() // a dynamic call of a function value: unknown effects
+			}
+			return p.IsProduct(cal) && p.mayWriteMapField(cal, "inputs")
+		}
+		return false
+	}
+	// lookupOf: v is inputs[k].Channel; returns the lookup
+	lookupOf := func(v ssa.Value) *ssa.Lookup {
+		f, isF := v.(*ssa.Field)
+		if !isF || fieldName(f.X.Type(), f.Field) != "Channel" {
+			return nil
+		}
+		lk, isL := f.X.(*ssa.Lookup)
+		if !isL || !p.isFieldLoad(lk.X, "inputs") {
+			return nil
+		}
+		return lk
+	}
 	for _, fn := range pr.rt.Funcs {
 		n := 0
 		for _, rs := range p.RecvSites(fn) {
@@ -846,16 +869,41 @@ func runC17(c *Ctx) {
 			}
 			n++
 			key := fmt.Sprintf("%s#recv.%d", p.FnKey(fn), n)
-			ok := false
-			why := "the channel expression is " + p.Sym(rs.Chan).String()
-			if f, isF := rs.Chan.(*ssa.Field); isF {
-				if lk, isL := f.X.(*ssa.Lookup); isL && lk.Block() == rs.In.Block() {
-					if ld, isLd := lk.X.(*ssa.UnOp); isLd && ld.Op == token.MUL && ld.Block() == rs.In.Block() && p.isFieldLoad(ld, "inputs") {
-						ok = true
+			why := ""
+			use := rs.In.(ssa.Instruction)
+			if lk := lookupOf(rs.Chan); lk != nil {
+				if w := staleBetween(fn, lk, use, isTableWriter); w != nil {
+					why = "the input table can be written at " + p.InstrPos(w) + " between the lookup at " + p.InstrPos(lk) + " and the receive"
+				}
+			} else if par, isPar := rs.Chan.(*ssa.Parameter); isPar {
+				// the channel handed to a helper: looked up by every caller, nothing written in between
+				idx := paramIndex(fn, par)
+				sites := p.CallSites(fn)
+				if len(sites) == 0 {
+					why = "the channel is a parameter of a function without call sites"
+				}
+				for _, cs := range sites {
+					args := cs.Common().Args
+					if _, isGo := cs.(*ssa.Go); isGo || idx < 0 || idx >= len(args) {
+						why = "the channel is handed over at " + p.InstrPos(cs) + " in a way that is not followed"
+						continue
+					}
+					lk := lookupOf(args[idx])
+					if lk == nil {
+						why = "the channel handed over at " + p.InstrPos(cs) + " is " + p.Sym(args[idx]).String() + ", not a lookup in the input table"
+						continue
+					}
+					if w := staleBetween(cs.Parent(), lk, cs, isTableWriter); w != nil {
+						why = "the input table can be written at " + p.InstrPos(w) + " between the lookup and the call at " + p.InstrPos(cs)
 					}
 				}
+				if w := staleBetween(fn, nil, use, isTableWriter); w != nil && why == "" {
+					why = "the input table can be written at " + p.InstrPos(w) + " before the receive of the channel handed in"
+				}
+			} else {
+				why = "the channel expression is " + p.Sym(rs.Chan).String()
 			}
-			r.Check(ok, "R3", key, rs.Pos(p), "table loaded and looked up in the select's own block", "the input channel is not looked up afresh in the input table right before the receive ("+why+"): a removed or replaced channel can still be read")
+			r.Check(why == "", "R3", key, rs.Pos(p), "channel looked up in the table; no table write between the lookup and the receive", "the input channel is not looked up afresh in the input table before the receive ("+why+"): a removed or replaced channel can still be read")
 		}
 	}
 	// R4
@@ -906,6 +954,49 @@ func runC17(c *Ctx) {
 			}
 		}
 	}
+}
+
+// staleBetween: an instruction accepted by isWriter that can execute after def and before use
+// without def being executed again in between (def == nil: anywhere before use). nil if none.
+func staleBetween(fn *ssa.Function, def, use ssa.Instruction, isWriter func(ssa.Instruction) bool) ssa.Instruction {
+	reachesUse := func(w ssa.Instruction) bool {
+		seen := map[*ssa.BasicBlock]bool{}
+		var scan func(b *ssa.BasicBlock, from int) bool
+		scan = func(b *ssa.BasicBlock, from int) bool {
+			for _, in := range b.Instrs[from:] {
+				if in == use {
+					return true
+				}
+				if def != nil && in == def {
+					return false
+				}
+			}
+			for _, s := range b.Succs {
+				if !seen[s] {
+					seen[s] = true
+					if scan(s, 0) {
+						return true
+					}
+				}
+			}
+			return false
+		}
+		b := w.Block()
+		for i, in := range b.Instrs {
+			if in == w {
+				return scan(b, i+1)
+			}
+		}
+		return false
+	}
+	for _, b := range fn.Blocks {
+		for _, in := range b.Instrs {
+			if in != use && in != def && isWriter(in) && reachesUse(in) {
+				return in
+			}
+		}
+	}
+	return nil
 }
 
 // checkN6: the filter that rebuilds `uncrowded` keeps exactly the priorities with actual < strategic.
